@@ -50,6 +50,9 @@ def make_dataset(im, disp=None, msk=None, bands=None, row0=0, col0=0, disparity_
             src = "grid"
         ds["disparity"] = xr.DataArray(arr, dims=["band_disp", "row", "col"])
         ds.attrs["disparity_source"] = src if disparity_source == "auto" else disparity_source
+        if disparity_source == "absent":
+            # datasets assembled by hand: disparity_source is not one of the five mandatory attributes
+            del ds.attrs["disparity_source"]
     else:
         ds.attrs["disparity_source"] = None if disparity_source == "auto" else disparity_source
     if msk is not None:
